@@ -10,11 +10,21 @@
 (* under the device secret.                                                *)
 (*                                                                         *)
 (* C03: AfterDI, AfterTO2, ReuseChangesNothing, Atomic.                    *)
+(*                                                                         *)
+(* Beyond C03 (Ext = TRUE): the rendezvous leg (TO0 registration by the    *)
+(* current owner, expiry, TO1, TO2 with the blob obtained from TO1 -- a    *)
+(* blob signed by an earlier owner makes the device abort, C07), the       *)
+(* all-in-one deployment (fdo.AllInOne: DI auto-extends the voucher to the *)
+(* owner and auto-registers the rendezvous blob; one database), and the    *)
+(* failure path of TO2Server.Resell (the voucher is out of the store until *)
+(* the caller adds it back).                                               *)
 (***************************************************************************)
 EXTENDS Naturals, Sequences, FiniteSets, TLC
 
 CONSTANTS MaxSteps,      \* bound on the history length
-          MaxCuts        \* how many runs may be cut in one history
+          MaxCuts,       \* how many runs may be cut in one history
+          Ext,           \* BOOLEAN: rendezvous leg, failed resale and restore are part of the alphabet
+          AIOs           \* subset of BOOLEAN: deployments explored (TRUE = all-in-one, one database)
 
 VARIABLES
     cred,        \* device credential: NoCred or [guid, mkey]
@@ -23,9 +33,13 @@ VARIABLES
     ownerKey,    \* index of the key the owner service signs with (1..)
     nextGuid,
     last,        \* outcome of the last action
-    cuts, steps
+    cuts, steps,
+    aio,         \* this history runs on an all-in-one deployment
+    rv,          \* rendezvous registrations: set of [guid, owner, live]
+    blob,        \* what the device got from its last TO1: NoBlob or [owner |-> signer]
+    held         \* voucher returned by a failed resale, not yet added back: NoV or a voucher
 
-vars == <<cred, mfgStore, ownerStore, ownerKey, nextGuid, last, cuts, steps>>
+vars == <<cred, mfgStore, ownerStore, ownerKey, nextGuid, last, cuts, steps, aio, rv, blob, held>>
 
 NoCred == [guid |-> 0, mkey |-> "none"]
 OwnerName(i) == <<"o", i>>
@@ -33,6 +47,9 @@ CutKinds == {"reqlost", "resplost", "err255"}
 DITypes == {10, 12}
 TO2Types == {60, 62, 64, 66, 68, 70}
 NoCut == [kind |-> "none", t |-> 0]
+NoBlob == [owner |-> <<"none", 0>>]
+NoV == [guid |-> 0]
+RvLive == cred # NoCred /\ \E r \in rv : r.guid = cred.guid /\ r.live
 
 Agrees(v, c) == c # NoCred /\ v.guid = c.guid /\ v.mkey = c.mkey /\ v.macOK
 HasAgreeing(store) == \E v \in store : Agrees(v, cred)
@@ -43,6 +60,7 @@ SeenByDevice(cut, t) == cut = NoCut \/ cut.t > t   \* did the device get the hon
 Init ==
     /\ cred = NoCred /\ mfgStore = {} /\ ownerStore = {} /\ ownerKey = 1 /\ nextGuid = 1
     /\ last = [a |-> "init", ok |-> TRUE] /\ cuts = 0 /\ steps = 0
+    /\ aio \in AIOs /\ rv = {} /\ blob = NoBlob /\ held = NoV
 
 Step(a, ok, extra) == last' = [a |-> a, ok |-> ok] @@ extra /\ steps' = steps + 1
 
@@ -55,42 +73,51 @@ DI(cut) ==
            v == [guid |-> g, mkey |-> "mfg", macOK |-> TRUE, ents |-> 0, owner |-> "mfg"]
            stored == ProcessedByServer(cut, 12)         \* diDone persists the voucher
            done == SeenByDevice(cut, 12)                \* the device saw DI.Done
-       IN /\ mfgStore' = IF stored THEN mfgStore \cup {v} ELSE mfgStore
+           \* all-in-one: BeforeVoucherPersist = AllInOne.Extend, AfterVoucherPersist = AllInOne.RegisterOwnerAddr
+           xv == [v EXCEPT !.ents = 1, !.owner = OwnerName(ownerKey)]
+       IN /\ mfgStore' = IF stored /\ ~aio THEN mfgStore \cup {v} ELSE mfgStore
+          /\ ownerStore' = IF stored /\ aio THEN ownerStore \cup {xv} ELSE ownerStore
+          /\ rv' = IF stored /\ aio THEN rv \cup {[guid |-> g, owner |-> OwnerName(ownerKey), live |-> TRUE]} ELSE rv
           /\ cred' = IF done THEN [guid |-> g, mkey |-> "mfg"] ELSE NoCred
           /\ nextGuid' = g + 1
           /\ Step("di", done, [cut |-> cut])
-    /\ UNCHANGED <<ownerStore, ownerKey>>
+    /\ UNCHANGED <<ownerKey, aio, blob, held>>
 
 (* The manufacturer extends the voucher through k intermediate owners to the owner service. *)
 Handover(k) ==
-    /\ k \in 0..2 /\ cred # NoCred
+    /\ k \in 0..2 /\ cred # NoCred /\ ~aio
     /\ \E v \in mfgStore :
          /\ v.guid = cred.guid /\ v.ents = 0
          /\ mfgStore' = mfgStore \ {v}
          /\ ownerStore' = ownerStore \cup {[v EXCEPT !.ents = k + 1, !.owner = OwnerName(ownerKey)]}
     /\ Step("handover", TRUE, [k |-> k])
-    /\ UNCHANGED <<cred, ownerKey, nextGuid, cuts>>
+    /\ UNCHANGED <<cred, ownerKey, nextGuid, cuts, aio, rv, blob, held>>
 
 (* TO2: served only for a voucher of the device's GUID with at least one entry whose owner key *)
 (* is the service's key.                                                                      *)
 Servable(v) == v.guid = cred.guid /\ v.ents >= 1 /\ v.owner = OwnerName(ownerKey)
-TO2(reuse, cut) ==
+(* useblob: the device passes the blob of its last TO1 to TO2 and verifies it under the key of   *)
+(* the voucher's last entry once the voucher is verified; a blob signed by anybody else makes it *)
+(* abort before ProveDevice.                                                                     *)
+TO2(reuse, cut, useblob) ==
     /\ cred # NoCred
+    /\ useblob => blob # NoBlob
     /\ cut = NoCut \/ (cut.kind \in CutKinds /\ cut.t \in TO2Types /\ cuts < MaxCuts)
     /\ cuts' = IF cut = NoCut THEN cuts ELSE cuts + 1
     /\ IF \E v \in ownerStore : Servable(v)
        THEN LET v == CHOOSE w \in ownerStore : Servable(w)
                 g == nextGuid
-                ownerDone == ProcessedByServer(cut, 70)    \* the owner accepted Done
-                devDone == SeenByDevice(cut, 70)           \* the device saw Done2
+                blobOK == ~useblob \/ blob.owner = v.owner
+                ownerDone == blobOK /\ ProcessedByServer(cut, 70)    \* the owner accepted Done
+                devDone == blobOK /\ SeenByDevice(cut, 70)           \* the device saw Done2
                 nv == [guid |-> g, mkey |-> OwnerName(ownerKey), macOK |-> TRUE, ents |-> 0, owner |-> OwnerName(ownerKey)]
             IN /\ ownerStore' = IF ownerDone /\ ~reuse THEN (ownerStore \ {v}) \cup {nv} ELSE ownerStore
                /\ cred' = IF devDone /\ ~reuse THEN [guid |-> g, mkey |-> OwnerName(ownerKey)] ELSE cred
                /\ nextGuid' = g + 1
-               /\ Step("to2", devDone, [reuse |-> reuse, cut |-> cut, ownerDone |-> ownerDone, served |-> TRUE])
+               /\ Step("to2", devDone, [reuse |-> reuse, cut |-> cut, ownerDone |-> ownerDone, served |-> TRUE, useblob |-> useblob, blobOK |-> blobOK])
        ELSE /\ UNCHANGED <<ownerStore, cred, nextGuid>>
-            /\ Step("to2", FALSE, [reuse |-> reuse, cut |-> cut, ownerDone |-> FALSE, served |-> FALSE])
-    /\ UNCHANGED <<mfgStore, ownerKey>>
+            /\ Step("to2", FALSE, [reuse |-> reuse, cut |-> cut, ownerDone |-> FALSE, served |-> FALSE, useblob |-> useblob, blobOK |-> TRUE])
+    /\ UNCHANGED <<mfgStore, ownerKey, aio, rv, blob, held>>
 
 (* Resale: the service extends the voucher of the device's GUID to the next owner, which then *)
 (* runs the owner service.                                                                    *)
@@ -101,13 +128,67 @@ Resell ==
          /\ ownerStore' = (ownerStore \ {v}) \cup {[v EXCEPT !.ents = v.ents + 1, !.owner = OwnerName(ownerKey + 1)]}
     /\ ownerKey' = ownerKey + 1
     /\ Step("resell", TRUE, [k |-> 0])
-    /\ UNCHANGED <<cred, mfgStore, nextGuid, cuts>>
+    /\ UNCHANGED <<cred, mfgStore, nextGuid, cuts, aio, rv, blob, held>>
+
+(* Resale to a key the voucher cannot be extended to (another type or size): Resell has already *)
+(* removed the voucher from the store and returns it with the error; until the caller adds it   *)
+(* back the service does not own the device.                                                    *)
+ResellBad ==
+    /\ cred # NoCred /\ held = NoV
+    /\ \E v \in ownerStore :
+         /\ v.guid = cred.guid /\ v.owner = OwnerName(ownerKey)
+         /\ ownerStore' = ownerStore \ {v}
+         /\ held' = v
+    /\ Step("resellbad", FALSE, [k |-> 0])
+    /\ UNCHANGED <<cred, mfgStore, ownerKey, nextGuid, cuts, aio, rv, blob>>
+
+Restore ==
+    /\ held # NoV
+    /\ ownerStore' = ownerStore \cup {held}
+    /\ held' = NoV
+    /\ Step("restore", TRUE, [k |-> 0])
+    /\ UNCHANGED <<cred, mfgStore, ownerKey, nextGuid, cuts, aio, rv, blob>>
+
+(* Resale of a device the service holds no voucher for fails and changes nothing. *)
+ResellMissing ==
+    /\ cred # NoCred
+    /\ ~\E v \in ownerStore : v.guid = cred.guid
+    /\ Step("resellmissing", FALSE, [k |-> 0])
+    /\ UNCHANGED <<cred, mfgStore, ownerStore, ownerKey, nextGuid, cuts, aio, rv, blob, held>>
+
+(* TO0: the owner service registers its address for the device's GUID; the rendezvous server   *)
+(* accepts it only for a voucher whose last entry names the key that signed the blob.           *)
+Register ==
+    /\ cred # NoCred
+    /\ IF \E v \in ownerStore : Servable(v)
+       THEN /\ rv' = {r \in rv : r.guid # cred.guid} \cup {[guid |-> cred.guid, owner |-> OwnerName(ownerKey), live |-> TRUE]}
+            /\ Step("register", TRUE, [k |-> 0])
+       ELSE /\ UNCHANGED rv
+            /\ Step("register", FALSE, [k |-> 0])
+    /\ UNCHANGED <<cred, mfgStore, ownerStore, ownerKey, nextGuid, cuts, aio, blob, held>>
+
+(* The registration of the device's GUID runs out. *)
+Expire ==
+    /\ RvLive
+    /\ rv' = {IF r.guid = cred.guid THEN [r EXCEPT !.live = FALSE] ELSE r : r \in rv}
+    /\ Step("expire", TRUE, [k |-> 0])
+    /\ UNCHANGED <<cred, mfgStore, ownerStore, ownerKey, nextGuid, cuts, aio, blob, held>>
+
+(* TO1: the device obtains the blob registered for its GUID, if the registration is alive. *)
+Locate ==
+    /\ cred # NoCred
+    /\ IF RvLive
+       THEN /\ blob' = [owner |-> (CHOOSE r \in rv : r.guid = cred.guid /\ r.live).owner]
+            /\ Step("locate", TRUE, [k |-> 0])
+       ELSE /\ blob' = NoBlob
+            /\ Step("locate", FALSE, [k |-> 0])
+    /\ UNCHANGED <<cred, mfgStore, ownerStore, ownerKey, nextGuid, cuts, aio, rv, held>>
 
 (* The credential is written to and re-read from its blob encoding. *)
 Persist ==
     /\ cred # NoCred
     /\ Step("persist", TRUE, [k |-> 0])
-    /\ UNCHANGED <<cred, mfgStore, ownerStore, ownerKey, nextGuid, cuts>>
+    /\ UNCHANGED <<cred, mfgStore, ownerStore, ownerKey, nextGuid, cuts, aio, rv, blob, held>>
 
 Cuts(types) == {NoCut} \cup {[kind |-> k, t |-> t] : k \in CutKinds, t \in types}
 
@@ -115,19 +196,37 @@ Next ==
     /\ steps < MaxSteps
     /\ \/ \E c \in Cuts(DITypes) : DI(c)
        \/ \E k \in 0..2 : Handover(k)
-       \/ \E r \in BOOLEAN, c \in Cuts(TO2Types) : TO2(r, c)
+       \/ \E r \in BOOLEAN, c \in Cuts(TO2Types) : TO2(r, c, FALSE)
        \/ Resell
        \/ Persist
+       \/ /\ Ext
+          /\ \/ \E r \in BOOLEAN, c \in Cuts(TO2Types) : TO2(r, c, TRUE)
+             \/ ResellBad \/ Restore \/ ResellMissing
+             \/ Register \/ Expire \/ Locate
 
 Spec == Init /\ [][Next]_vars
 
 -----------------------------------------------------------------------------
 (* what the harness can observe after every action *)
+(* all-in-one: manufacturer and owner share one database *)
 Proj == [ok |-> last.ok, hasCred |-> cred # NoCred,
-         mfgN |-> Cardinality(mfgStore), ownerN |-> Cardinality(ownerStore),
-         agreeM |-> HasAgreeing(mfgStore), agreeO |-> HasAgreeing(ownerStore)]
+         mfgN |-> IF aio THEN Cardinality(ownerStore) ELSE Cardinality(mfgStore), ownerN |-> Cardinality(ownerStore),
+         agreeM |-> IF aio THEN HasAgreeing(ownerStore) ELSE HasAgreeing(mfgStore), agreeO |-> HasAgreeing(ownerStore),
+         rvLive |-> RvLive, hasBlob |-> blob # NoBlob]
 
-AfterDI  == (last.a = "di" /\ last.ok) => HasAgreeing(mfgStore)
+AfterDI  == (last.a = "di" /\ last.ok) => IF aio THEN HasAgreeing(ownerStore) ELSE HasAgreeing(mfgStore)
+(* all-in-one: after DI the device can be located and onboarded without any further step *)
+AIOReady == (aio /\ last.a = "di" /\ last.ok) => (RvLive /\ \E v \in ownerStore : Servable(v))
+(* a blob signed by anybody but the voucher's current owner never completes TO2 (C07, device half) *)
+StaleBlobRefused == (last.a = "to2" /\ last.ok) => last.blobOK
+LocateOnlyLive == [][(last'.a = "locate" /\ last'.ok) => RvLive]_vars
+(* the redirect is registered only by the owner the voucher names *)
+RegisteredByOwner == \A r \in rv : \E i \in 1..ownerKey : r.owner = OwnerName(i)
+(* resale never loses a voucher: a held voucher is not served and comes back unchanged *)
+HeldNotServed == held # NoV => held \notin ownerStore
+RestoreGivesBack == [][last'.a = "restore" => (held \in ownerStore' /\ held' = NoV)]_vars
+FailedResaleKeepsVoucher ==
+    [][last'.a \in {"resellbad", "resellmissing"} => (ownerStore' \cup (IF held' = NoV THEN {} ELSE {held'}) = ownerStore \cup (IF held = NoV THEN {} ELSE {held}))]_vars
 AfterTO2 == (last.a = "to2" /\ last.ok /\ ~last.reuse) =>
                 /\ HasAgreeing(ownerStore)
                 /\ \A v \in ownerStore : v.guid = cred.guid => Agrees(v, cred)
@@ -141,5 +240,5 @@ CredOnlyAfterDone2 ==
     [][(last'.a = "to2" /\ cred' # cred) => (last'.ok /\ last'.ownerDone /\ ~last'.reuse)]_vars
 (* a successful replacement leaves the device resaleable and onboardable again *)
 CanContinue ==
-    (last.a = "to2" /\ last.ok /\ ~last.reuse) => ENABLED Resell
+    (last.a = "to2" /\ last.ok /\ ~last.reuse /\ held = NoV) => ENABLED Resell
 =============================================================================
